@@ -321,6 +321,18 @@ func VH_C15_gates() {
 	if c.class == vhRead || c.class == vhOpen {
 		vassert("C15.reads_change_nothing", !changed && !logged)
 	}
+	// C07: whatever reads the dataset does so under the server lock (shared or exclusive) - also the commands
+	// that are not in any explicit list of the dispatcher (STATS, TEST ...)
+	if !unauth && (c.class == vhRead || name == "stats" || name == "test" || name == "config" || name == "readonly") &&
+		!(follower && !caughtUp && c.class == vhRead) && !strings.HasPrefix(name, "evalna") {
+		inner := name
+		if name == "timeout" {
+			inner = strings.ToLower(c.args[2])
+		}
+		if !strings.HasPrefix(inner, "evalna") {
+			vassert("C07.K1.dataset_is_read_under_the_lock", lk.log != "")
+		}
+	}
 }
 
 // VH_C15_auth: AUTH with symbolic password bytes; only the exact password (modulo surrounding white space,
